@@ -100,7 +100,7 @@ def skipToEscapeSlow (slice : Bytes) (index : Nat) : Nat := slowLoop slice index
 /--
 ```rust
 fn skip_to_escape(&mut self, forbid_control_characters: bool) {
-    // Immediately bail-out on empty strings and consecutive escapes (e.g. Ле)
+    // Immediately bail-out on empty strings and consecutive escapes (e.g. \u041b\u0435)
     if self.index == self.slice.len()
         || is_escape(self.slice[self.index], forbid_control_characters) { return; }
     self.index += 1;
